@@ -236,6 +236,7 @@ File-system semantics (atomicity of fs::write, read-only destinations) are not d
     same_pipeline(m, ctx);
     dest_tables(m, ctx);
     cli(m, ctx);
+    cli_stdout(ctx, facts);
     asn1_macro(m, ctx);
 }
 
@@ -573,4 +574,29 @@ fn asn1_macro(m: &Model, ctx: &mut Ctx) {
         Some(Val::Str(s)) if s.contains("DEFINITIONS AUTOMATIC TAGS") && s.trim_end().ends_with("BEGIN") => {}
         _ => ctx.violate("C20.macro", "dummy-header", &f.file, 0, "DUMMY_HEADER must be an AUTOMATIC TAGS module header ending in BEGIN"),
     }
+}
+
+/// C20.cli (MIR): with `--stdout` the standard output of the command-line tool *is* the bindings. Nothing in the CLI crate
+/// itself may write to stdout (diagnostics go to stderr): every body of the binary crate is scanned for stdout effects.
+fn cli_stdout(ctx: &mut Ctx, facts: &Facts) {
+    let bodies: Vec<usize> = facts.find(|b| b.krate == "rasn_compiler_cli");
+    ctx.floor("C20.cli/binary-crate-bodies", bodies.len(), 3);
+    let mut n = 0;
+    for &i in &bodies {
+        let b = &facts.bodies[i];
+        for bl in &b.blocks {
+            if bl.t != "call" || bl.cleanup {
+                continue;
+            }
+            n += 1;
+            if let Some(what) = output_effect(&bl.callee) {
+                if what == "print to stdout" || what == "stdout handle" {
+                    ctx.violate("C20.cli", &format!("cli-writes-stdout:{}", c08::owner_of(&b.path)), &b.file, bl.line,
+                        &format!("`{}` of the command-line tool writes to standard output itself (`{}`): with --stdout that text is mixed into the delivered bindings, which then differ from what compile_to_string() returns (diagnostics belong on stderr)", c08::owner_of(&b.path), bl.callee));
+                }
+            }
+        }
+    }
+    ctx.oblige_n("C20.cli/calls-in-binary-crate", n);
+    ctx.oblige("C20.cli", "no-stdout-in-cli", true);
 }
